@@ -65,7 +65,7 @@ Proof. vm_compute. auto. Qed.
 
 (* ---- whole documents: what the library emits from a consistent element tree (every node in a reachable state of its type's machine, the
    ids of the schema-ordered view pointing at children with the recorded tags) is a schema-shaped document, the parser reads it, and the
-   element it builds emits the same document again (Model/Doc.v, any depth; element types of the sequence and bag classes) ---- *)
+   element it builds emits the same document again (Model/Doc.v, any depth; element types of the sequence, choice and bag classes) ---- *)
 From MX Require Import Gen.Names Gen.Schema Gen.Templates Gen.Lib Spec.Equiv Model.Tables Model.SeqIds Model.Doc Model.DocTables.
 Lemma cm_rows_ok8 : forallb cm_row_ok cm_rows = true.
 Proof. vm_compute. reflexivity. Qed.
